@@ -599,11 +599,11 @@ def strace_sync(binary, cases, timeout=900):
                     continue
                 pid, txt = m.group(1), m.group(2)
                 if txt.endswith("<unfinished ...>"):
-                    pending[pid] = txt[:-len("<unfinished ...>")]
+                    pending[pid] = txt[:-len("<unfinished ...>")].rstrip()
                     continue
                 r = re.match(r"<\.\.\. \w+ resumed>(.*)$", txt)
                 if r:
-                    txt = pending.pop(pid, "") + r.group(1)
+                    txt = pending.pop(pid, "") + r.group(1).lstrip()
                 mk = _MARK.search(txt)
                 if mk:
                     c, op, what = int(mk.group(1)), int(mk.group(2)), mk.group(3)
@@ -658,7 +658,7 @@ def run_impl(ctx, binary, cases):
         extra = []
         for i in sorted(sy):
             wr, sn = sy[i]
-            for k in sorted(set([sn, wr, (sn + wr) // 2])):
+            for k in sorted(set([sn, wr] + ([(sn + wr) // 2] if i % 3 == 0 else []))):
                 extra.append({"k": "crash", "op": i, "at": k, "ro": (i + k) % 3 == 0})
         cases2.append(dict(c, muts=list(c["muts"]) + extra) if extra else c)
     outs = vlib.run_harness(binary, HARNESS_RUNNER, cases2, timeout=1800)
